@@ -1,6 +1,8 @@
 (** Extraction of the C04 model for the correspondence driver harness/C04/mdrv.ml.
     ExtrOcamlBasic only: N / positive / nat stay the extracted inductive types. *)
-From LibaV Require Import C04.VecDefs.
+From LibaV Require Import C04.VecDefs C04.AccDefs.
 Require Extraction.
 Require Import ExtrOcamlBasic.
-Extraction "C04/extracted/vecmodel.ml" wstep_lex run_lex init_world.
+(* AccDefs: the accessor verdict, the alias operations and the structure left by a_vec_dtor / a_buf_dtor *)
+Extraction "C04/extracted/vecmodel.ml" wstep_lex run_lex init_world
+  vec_acc_check buf_acc_check OPush OPull wdtor_vec wdtor_buf.
